@@ -17,11 +17,15 @@ package table
 import (
 	"bytes"
 	"encoding/binary"
+	"errors"
+	"math"
 
 	"github.com/B1NARY-GR0UP/originium/pkg/bufferpool"
 	"github.com/B1NARY-GR0UP/originium/types"
 	"github.com/B1NARY-GR0UP/originium/utils"
 )
+
+var ErrEntryTooLarge = errors.New("error key or value does not fit a 16 bit length field")
 
 // Data Block
 type Data struct {
@@ -96,6 +100,11 @@ func (d *Data) Encode() ([]byte, error) {
 	for _, entry := range d.Entries {
 		lcp := utils.LCP(entry.Key, prevKey)
 		suffix := entry.Key[lcp:]
+
+		// lengths are stored in 16 bits
+		if len(entry.Key) > math.MaxUint16 || len(entry.Value) > math.MaxUint16 {
+			return nil, ErrEntryTooLarge
+		}
 
 		// lcp
 		w.Write(binary.LittleEndian, uint16(lcp))
